@@ -167,7 +167,7 @@ func (o *OutputCollector) EmitArrays(arrays []arrow.Array, numRows int64) error 
 		s = o.ProcessSchema
 	}
 	batch := array.NewRecordBatch(s, arrays, numRows)
-	return o.Emit(batch)
+	return o.emitOwned(batch)
 }
 
 // EmitMap builds a 1-row RecordBatch from column name/value pairs using the
@@ -192,6 +192,18 @@ func (o *OutputCollector) EmitMap(data map[string][]interface{}) error {
 	batch := array.NewRecordBatch(schema, cols, numRows)
 	for _, c := range cols {
 		c.Release()
+	}
+	return o.emitOwned(batch)
+}
+
+// emitOwned emits a batch the collector itself built (EmitArrays / EmitMap).
+// When a data batch was already emitted in this call Emit refuses the new one
+// without taking ownership, and since the caller never held it nobody would
+// release it — so release it here before reporting the refusal.
+func (o *OutputCollector) emitOwned(batch arrow.RecordBatch) error {
+	if o.dataBatchIdx >= 0 {
+		batch.Release()
+		return fmt.Errorf("OutputCollector: only one data batch may be emitted per call")
 	}
 	return o.Emit(batch)
 }
